@@ -33,7 +33,10 @@ class RecBroker(AsyncBroker):
         tm.parse_labels()
         tidx = int(tm.task_name[1:]) if tm.task_name[1:].isdigit() else 0
         a = tm.args[0] if tm.args else 0
-        ok = tm.kwargs == {"p": a} and "schedule_id" in tm.labels and tm.labels.get("own") == f"L{tidx}" and tm.labels.get("el") == a
+        want_el = a if isinstance(a, int) and a % 4 != 0 else None
+        foreign = [k for k in tm.labels if k.startswith("k") and k[1:].isdigit() and k != f"k{tidx}"]
+        ok = (tm.kwargs == {"p": a} and "schedule_id" in tm.labels and tm.labels.get("own") == f"L{tidx}" and tm.labels.get("el") == want_el
+              and tm.labels.get(f"k{tidx}") == tidx and not foreign)          # its own task's labels, nobody else's
         ev = dict(EV0)
         ev.update({"e": "kick", "task": tidx, "a": a if isinstance(a, int) else 0, "ok": bool(ok)})
         self.events.append(ev)
@@ -48,7 +51,9 @@ OFFSETS: List[Any] = [None, "Asia/Kathmandu", _dt.timedelta(hours=3)]
 
 
 def entry_dict(e: Dict[str, Any]) -> Dict[str, Any]:
-    d: Dict[str, Any] = {"args": [e["a"]], "kwargs": {"p": e["a"]}, "labels": {"el": e["a"]}}     # labels of this entry only
+    d: Dict[str, Any] = {"args": [e["a"]], "kwargs": {"p": e["a"]}}
+    if e["a"] % 4 != 0:
+        d["labels"] = {"el": e["a"]}         # labels of this entry only (some entries have none of their own)
     if e["k"] in ("cron", "both"):
         d["cron"] = "*/5 * * * *"
         if OFFSETS[e["a"] % 3] is not None:
@@ -97,10 +102,10 @@ def run(scn: Dict[str, Any]) -> List[Dict[str, Any]]:
                 from taskiq.brokers.shared_broker import AsyncSharedBroker
                 shared = AsyncSharedBroker()
                 shared.default_broker(own)
-                shared.register_task(fn, task_name=f"t{i}", schedule=[entry_dict(e) for e in t["entries"]], own=f"L{i}")
+                shared.register_task(fn, task_name=f"t{i}", schedule=[entry_dict(e) for e in t["entries"]], own=f"L{i}", **{f"k{i}": i})
                 shared_names.append(f"t{i}")
                 continue
-            b.register_task(fn, task_name=f"t{i}", schedule=[entry_dict(e) for e in t["entries"]], own=f"L{i}")
+            b.register_task(fn, task_name=f"t{i}", schedule=[entry_dict(e) for e in t["entries"]], own=f"L{i}", **{f"k{i}": i})
         if len(cfg["tasks"]) % 2 == 0 and cfg["tasks"] and cfg["tasks"][0].get("own", True):
             # a shared task that happens to have the same name as own task t1: the broker's own task wins
             from taskiq.brokers.shared_broker import AsyncSharedBroker
@@ -123,7 +128,9 @@ def run(scn: Dict[str, Any]) -> List[Dict[str, Any]]:
             if s.cron and isinstance(a, int) and s.cron_offset != OFFSETS[a % 3]:
                 return 0
             task = own.find_task(s.task_name)
-            if task is not None and ("el" in task.labels or s.labels.get("el") != a):
+            want = a if isinstance(a, int) and a % 4 != 0 else None
+            others = [k for k in s.labels if k.startswith("k") and k[1:].isdigit() and k != "k" + s.task_name[1:]]
+            if task is not None and ("el" in task.labels or s.labels.get("el") != want or others):
                 return 0          # an entry's labels leaked into the task's declared labels, or are not this entry's
             return a
 
